@@ -62,7 +62,10 @@ func newPendingRequest(r *http.Request) *pendingRequest {
 }
 
 type proxy struct {
-	requestIDs    chan string
+	requestIDs chan string
+
+	// protects the random number generator below, which is not safe for concurrent use
+	randMu        sync.Mutex
 	randGenerator *rand.Rand
 
 	// protects the map below
@@ -193,7 +196,10 @@ func (p *proxy) handleAgentRequest(w http.ResponseWriter, r *http.Request, backe
 }
 
 func (p *proxy) newID() string {
-	sum := sha256.Sum256([]byte(fmt.Sprintf("%d", p.randGenerator.Int63())))
+	p.randMu.Lock()
+	n := p.randGenerator.Int63()
+	p.randMu.Unlock()
+	sum := sha256.Sum256([]byte(fmt.Sprintf("%d", n)))
 	return fmt.Sprintf("%x", sum)
 }
 
